@@ -39,7 +39,7 @@ LEVEL_TEXT = (
 
 
 def budget(tier):
-    return 14 if tier == "quick" else 250
+    return 20 if tier == "quick" else 300
 
 
 def wall_guard(tier):
